@@ -706,7 +706,7 @@ def run(ctx: Ctx):
     if hs and have_model:
         r = rng.fork("svc")
         cases = load_corpus("svc") + svc_boundary_cases() + [gen_svc_case(r, i) for i in range(1500 * scale)]
-        res = ctx.lockstep("tsvc", hs, cases, timeout=900)
+        res = ctx.lockstep("tsvc", hs, cases, timeout=300)
         tot = {"starts": 0, "cancel_ok": 0, "gate_blocks": 0}
         judge(ctx, hs, res, monitor_svc, "service lockstep (harness/c08_svc.cpp vs Model/TimerService.lean)", dist, rng,
               stats=svc_stats, tot=tot, nontrivial=lambda st: st["starts"] > 0)
@@ -804,14 +804,18 @@ def report_property(ctx, hb, c, impl, model, fails, monitor):
     def still(sub):
         if not sub or not sub[0].startswith("reset"):
             return False
-        out, rc, err = ctx.run_lines([hb], sub, timeout=60)
+        out, rc, err = ctx.run_lines([hb], sub, timeout=30)
         out = out + ["crash:" + str(rc)] * (len(sub) - len(out))
         cc = dict(c)
         cc["ops"] = sub
         return bool([f for f in monitor(cc, out) if f.split(":")[0] == tag])
     try:
+        import time as _t
+        t0 = _t.time()
         if len(ops) > 4 and still(ops):
-            ops = [ops[0]] + ddmin(ops[1:], lambda s: still([ops[0]] + s), max_tests=80)
+            # shrinking re-runs the harness: keep it cheap when one run is slow (watchdog answers cost seconds each)
+            budget = 60 if _t.time() - t0 < 1.0 else 8
+            ops = [ops[0]] + ddmin(ops[1:], lambda s: still([ops[0]] + s), max_tests=budget)
     except Exception:
         pass
     obj = {"ops": ops, "geom": c.get("geom"), "observed": impl if ops is c["ops"] else None, "expected_by_model": model if ops is c["ops"] else None,
